@@ -184,6 +184,10 @@ func runC20(c *Ctx) error {
 					Lite: c.Rng.IntN(4) == 0, Stub: c.Rng.IntN(4) == 0},
 				System: config.System{DisableTun: true},
 			}
+			// every third cycle the joining router knows the other one only as a bootstrap entry
+			if cy%3 == 2 && len(connect) > 0 {
+				st.Router.Bootstrap, st.Router.Connect = connect, nil
+			}
 			if c.Rng.IntN(2) == 0 {
 				st.System.StatePath = filepath.Join(dir, fmt.Sprintf("state-%d-%d.json", cy, k))
 			}
@@ -193,7 +197,7 @@ func runC20(c *Ctx) error {
 			}
 			return st
 		}
-		label := fmt.Sprintf("cycle=%d/short=%v/host=%s/universe=%q/secret=%v", cy, shortForm, host, universe, secret != "")
+		label := fmt.Sprintf("cycle=%d/short=%v/host=%s/universe=%q/secret=%v/bootstrap-only=%v", cy, shortForm, host, universe, secret != "", cy%3 == 2)
 		stA := mkStore(ids[0], portA, nil, 0)
 		stB := mkStore(ids[1], portB, []string{fmt.Sprintf("tcp://%s:%d", host, portA)}, 1)
 		cfgA, err := stA.Parse()
